@@ -17,6 +17,24 @@ Inductive cred_kind := CPassword | COAuthToken.
 Definition cred_mechs (k : cred_kind) : list str :=
   match k with CPassword => [s_PLAIN] | COAuthToken => [s_XOAUTH2] end.
 
+(* ---- which children of the features element advertise a mechanism ----
+   stanza.saslMechanisms: the <mechanism/> children of
+   <mechanisms xmlns="urn:ietf:params:xml:ns:xmpp-sasl"/> THAT ARE THEMSELVES IN THE
+   SASL NAMESPACE, in document order, each by its character data.  A child in
+   another namespace (an extension element that happens to be called "mechanism")
+   advertises nothing. *)
+Definition s_ns_sasl : str :=   (* urn:ietf:params:xml:ns:xmpp-sasl *)
+  [117; 114; 110; 58; 105; 101; 116; 102; 58; 112; 97; 114; 97; 109; 115; 58; 120; 109;
+   108; 58; 110; 115; 58; 120; 109; 112; 112; 45; 115; 97; 115; 108].
+Definition s_mechanism : str := [109; 101; 99; 104; 97; 110; 105; 115; 109].   (* mechanism *)
+
+(* a child element of <mechanisms/>: (namespace, local name, character data) *)
+Definition fchild := (str * str * str)%type.
+Definition is_sasl_mech (c : fchild) : bool :=
+  let '(ns, local, _) := c in str_eqb ns s_ns_sasl && str_eqb local s_mechanism.
+Definition advertised (children : list fchild) : list str :=
+  map (fun c : fchild => snd c) (filter is_sasl_mech children).
+
 (* isSupportedMech *)
 Definition is_supported_mech (m : str) (server : list str) : bool :=
   existsb (str_eqb m) server.
@@ -96,6 +114,11 @@ Definition auth_sasl_mechs (creds server : list str) (user secret : str)
 Definition auth_sasl (k : cred_kind) (server : list str) (user secret : str)
   (w : wres) (r : reply) : outcome :=
   auth_sasl_mechs (cred_mechs k) server user secret w r.
+
+(* authSASL on the features element as the server sent it *)
+Definition auth_sasl_features (k : cred_kind) (children : list fchild) (user secret : str)
+  (w : wres) (r : reply) : outcome :=
+  auth_sasl k (advertised children) user secret w r.
 
 (* ---- the receiving side: what a server reads out of the element ----
    (used to state that the element cannot be broken by its content) *)
